@@ -74,6 +74,44 @@ def thir_all_(facts, b):
     return thir_all(facts, b)
 
 
+def generalize_before_bind(ck, facts, R):
+    """Shared by C07 / C14: relate_var_ty binds a type variable only to the *generalized* copy of the (occurs-checked) type, and then
+    relates that copy with the original.  Generalization is where every nested alias (projection) is replaced by a fresh variable; the
+    follow-up relate is what emits the AliasEq goal that normalizes it.  Binding the type itself (a `no inference variables inside`
+    fast path) leaves nested projections unnormalized in a Unique answer."""
+    ck.rule(R, "K3: in Unifier::relate_var_ty every unify_var_value is dominated by a call to generalize_ty, and the bound value derives from "
+               "its result; the function then relates the generalized type with the original (relate_ty_ty) on every path to the return")
+    b = need_body(ck, facts, R, UNI + "::relate_var_ty")
+    if not b:
+        return
+    dominated_by_calls(ck, R, b, BIND, "generalize_ty", "unify_var_value", "generalize_ty(ty)")
+    from kit import let_bound
+    gen = let_bound(b.thir, lambda i: has_call(i, "generalize_ty"))
+    binds = [c for c in calls(b.thir, BIND)]
+    derived = set(gen)
+    changed = True
+    while changed:
+        changed = False
+        for st in walk(b.thir):
+            if st.get("k") == "let" and st.get("init") is not None and (st.get("pat") or {}).get("k") == "bind" and st["pat"]["n"] not in derived \
+                    and expr_vars(st["init"]) & derived:
+                derived.add(st["pat"]["n"])
+                changed = True
+    if binds and all(expr_vars(c["args"][2]) & derived for c in binds):
+        ck.ok(R, "relate_var_ty:binds-generalized-type")
+    else:
+        ck.violation(R, "relate_var_ty:binds-generalized-type", b.where(), "the variable is bound to something that does not come from generalize_ty")
+    cfg = b.cfg
+    rel = cfg.call_blocks("relate_ty_ty")
+    bind_blocks = cfg.call_blocks(BIND)
+    rets = set(cfg.return_blocks())
+    bad = [bb for bb in bind_blocks if rets & (cfg.reachable(bb, (), False, stop=set(rel)) - set(rel))]
+    if rel and not bad:
+        ck.ok(R, "relate_var_ty:relates-generalized-with-original")
+    else:
+        ck.violation(R, "relate_var_ty:relates-generalized-with-original", b.where(), "after binding, the generalized type must be related with the original")
+
+
 def occurs_before_bind(ck, facts, R):
     """Shared with C28: the occurs check is also where a binding's universes are checked (a placeholder the variable cannot name is
     rejected, a younger variable is promoted) - a binding that bypasses it can put an unnameable universe into a solution."""
@@ -149,6 +187,7 @@ def run(ck, facts, tier):
                          "(is the value occurs-checked and universe-checked?)")
 
     occurs_before_bind(ck, facts, "C14.OCCURS")
+    generalize_before_bind(ck, facts, "C14.GENERALIZE")
 
     R = "C14.PROMOTE"
     ck.rule(R, "K3: OccursCheck's three inference-variable callbacks bind only `Unbound(self.universe_index)` and only on the "
